@@ -25,6 +25,7 @@ import (
 	"io"
 	"runtime"
 	"runtime/debug"
+	"runtime/metrics"
 	"strings"
 
 	"github.com/notaryproject/notation-go/log"
@@ -127,14 +128,29 @@ func analysePanic(st []byte) (origin, lib string, text string) {
 	return origin, lib, b.String()
 }
 
+// totalAlloc returns the cumulative bytes allocated on the heap: the quantity
+// runtime.MemStats.TotalAlloc reports, read through runtime/metrics (ReadMemStats stops the
+// world, ~30 us per call, which would dominate the cost of the cheap calls). The tests of this
+// package run on one goroutine, so the delta around a call is the call's own allocation (plus
+// that of goroutines the library starts on its behalf).
+func totalAlloc() uint64 {
+	s := []metrics.Sample{{Name: "/gc/heap/allocs:bytes"}}
+	metrics.Read(s)
+	if s[0].Value.Kind() != metrics.KindUint64 {
+		var m runtime.MemStats
+		runtime.ReadMemStats(&m)
+		return m.TotalAlloc
+	}
+	return s[0].Value.Uint64()
+}
+
 // harnessPanic is raised (as a panic value) when the harness itself is at fault.
 type harnessPanic struct{ msg string }
 
 // guard runs fn, which must call exactly one library entry point (plus cheap accessors on
 // its results). It returns a finding for a recovered panic or a runaway allocation.
 func guard(entry string, inputLen int, fn func()) (f *finding) {
-	var before, after runtime.MemStats
-	runtime.ReadMemStats(&before)
+	before := totalAlloc()
 	defer func() {
 		if r := recover(); r != nil {
 			if hp, ok := r.(harnessPanic); ok {
@@ -152,8 +168,7 @@ func guard(entry string, inputLen int, fn func()) (f *finding) {
 				Msg: fmt.Sprintf("%s panicked: %v; top library frame %s; stack:%s", entry, r, lib, text)}
 			return
 		}
-		runtime.ReadMemStats(&after)
-		if d := after.TotalAlloc - before.TotalAlloc; d > runawayBytes && inputLen < runawayInputMax {
+		if d := totalAlloc() - before; d > runawayBytes && inputLen < runawayInputMax {
 			f = &finding{Key: "C12:runaway-allocation:" + entry,
 				Msg: fmt.Sprintf("%s allocated %d MiB for an input of %d bytes (limit %d MiB for inputs below %d MiB)", entry, d>>20, inputLen, runawayBytes>>20, runawayInputMax>>20)}
 		}
